@@ -51,6 +51,14 @@ func (s *ser) str(sb *strings.Builder, v string) {
 
 // SpellFloat returns an alternative JSON spelling of f denoting the same float64.
 func SpellFloat(rng *rand.Rand, f float64) string {
+	if f == 0 {
+		// "00e-1" is not a JSON number and "0.0" is not negative zero: zero gets its own spellings
+		sign := ""
+		if math.Signbit(f) {
+			sign = "-"
+		}
+		return sign + []string{"0.0", "0e0", "0.0e-1", "0.000", "0E+0"}[rng.Intn(5)]
+	}
 	if f == math.Trunc(f) && math.Abs(f) < 1e15 {
 		i := int64(f)
 		switch rng.Intn(5) {
